@@ -1354,6 +1354,21 @@ func Run(c *hx.Ctx) error {
 		}
 	}
 	defer scratchCleanup()
+	// The process-wide background compactor (a 10 s ticker over every registered shard) must
+	// never act on a shard of this harness: the shard of phase 1 is detached from it, the
+	// shards opened on crash images are registered for the instant between the end of the
+	// open and DisableBackground - a tick in that instant merged the out-of-order files of an
+	// image (seen once in ~14 000 opens). The ticker's three actions are switched off through
+	// the engine's own process-wide knobs; the harness starts every reorganisation itself.
+	oldRule := immutable.LevelCompactRule
+	immutable.LevelCompactRule = nil
+	immutable.EnableMergeOutOfOrder = false
+	engine.SetFullCompColdDuration(100 * 365 * 24 * time.Hour)
+	defer func() {
+		immutable.LevelCompactRule = oldRule
+		immutable.EnableMergeOutOfOrder = true
+		engine.SetFullCompColdDuration(time.Hour)
+	}()
 	n := c.Budget(14, 160)
 	r := hx.NewRng(c.Seed)
 	thorough := c.Tier == "thorough"
@@ -1367,7 +1382,7 @@ func Run(c *hx.Ctx) error {
 	// structured part first: several reorganisations in flight at the crash (multi.go)
 	nMulti := 2
 	if thorough {
-		nMulti = 4 + n/10
+		nMulti = 4 + n/20
 	}
 	if v := c.Arg("multi", ""); v != "" {
 		nMulti, _ = strconv.Atoi(v)
